@@ -358,6 +358,20 @@ partial def step (s : St) (line : String) : St × String :=
           | .err _ => (s, "err")
           | .panic _ => (s, "panic")
       | _, _, _ => (s, "bad-op")
+  | ["loadrootc", fmt, kk, bf, height, order, link, top, wfmt, wkk] =>
+      -- LoadMast through a node cache that a reader configured with (wfmt, wkk, ascending order)
+      -- has filled from the same store
+      match parseKK kk, parseKK wkk, nat bf, nat height with
+      | some kk, some wkk, some bf, some h =>
+          let topB : Option Bytes := if top == "missing" then none else if top == "-" then some [] else some (unhexS top)
+          let fmtS := if fmt == "-" then "" else fmt
+          let dec := if wfmt == "bin" then Codec.decBinRaw else Json.decJson
+          let cached := topB.bind (Loader.cacheEntry dec wkk false)
+          match Loader.loadMastC fmtS kk (fun kk' => layerOf kk' bf) h (order == "desc") (link == "1") cached topB with
+          | .ok => (s, "ok")
+          | .err _ => (s, "err")
+          | .panic _ => (s, "panic")
+      | _, _, _, _ => (s, "bad-op")
   | ["crclayer", bf, hx] =>
       match nat bf with
       | some bf => (s, s!"{uintLayer bf (crc64 (unhexS hx))}")
